@@ -276,6 +276,17 @@ Section Ser.
       | _ => (st, O, false)
       end.
 
+    (* Pretty::seed_context: the context the node that is serialized stands in — an ancestor element that is suppressed or
+       has an inline child makes everything mixed; otherwise the nearest xml:space among the ancestors, when it is preserve *)
+    Definition seed_context (z : zipper) : list sentry :=
+      let anc := tl (ancestors z) in
+      if existsb (fun a => match z_val a with VElement n => is_suppressed n || has_inline_child a | _ => false end) anc
+      then [Mixed]
+      else match List.find (fun a => match z_val a, element_space a with VElement _, SpEmpty => false | VElement _, _ => true | _, _ => false end) anc with
+           | Some a => match element_space a with SpPreserve => [Unmixed SpPreserve] | _ => [] end
+           | None => []
+           end.
+
     Fixpoint spaces (n : nat) : str := match n with O => [] | S k => 32 :: 32 :: spaces k end.
 
     Record ptoken := { pt_indent : nat; pt_space : bool; pt_text : str; pt_newline : bool }.
@@ -296,7 +307,7 @@ Section Ser.
           end
       end.
 
-    Definition pretty_tokens (prm : params) (z : zipper) := pretty_all prm (ser_new z) [] (gen_outputs z).
+    Definition pretty_tokens (prm : params) (z : zipper) := pretty_all prm (ser_new z) (seed_context z) (gen_outputs z).
 
     Definition ptoken_text (t : ptoken) : str :=
       spaces (pt_indent t) ++ (if pt_space t then [32] else []) ++ pt_text t ++ (if pt_newline t then [10] else []).
@@ -317,7 +328,7 @@ Section Ser.
       end.
 
     Definition serialize_pretty_write (prm : params) (z : zipper) : sum serr str :=
-      serialize_pretty_go prm (ser_new z) [] (gen_outputs z) [].
+      serialize_pretty_go prm (ser_new z) (seed_context z) (gen_outputs z) [].
 
     Definition serialize_pretty (prm : params) (z : zipper) : sum serr str :=
       match pretty_tokens prm z with
